@@ -20,6 +20,12 @@ class EngineLimit(BaseException):
     """The engine cannot decide (unsupported operation, solver unknown, budget). Inconclusive, never a pass."""
 
 
+def modelled(e):
+    """mark an exception a proxy raises on behalf of CPython (it is what the real builtin would raise on the value)"""
+    e._symx_modelled = True
+    return e
+
+
 class PathAbort(BaseException):
     """Current path is infeasible or cut by an assumption."""
 
@@ -117,28 +123,52 @@ def s_ite(c, a, b):
 # ----------------------------------------------------------------------------------------------- SBool
 
 class SBool:
+    """symbolic truth value.  rt / rf: optional interval refinements applied to the compared SInt objects once the
+    scheduler has decided the condition true / false on this path (proxy objects are per path, so this is sound)"""
+    rt = rf = None
+
     def __init__(self, t):
         self.t = t
 
     def __bool__(self):
-        return _cur.branch(self.t)
+        d = _cur.branch(self.t)
+        self.refine(d)
+        return d
+
+    def refine(self, d):
+        f = self.rt if d else self.rf
+        if f is not None:
+            f()
 
     def __and__(self, o):
         if not isinstance(o, (SBool, bool)):
             return NotImplemented
-        return mk_bool(z3.And(self.t, _b(o)))
+        r = mk_bool(z3.And(self.t, _b(o)))
+        if isinstance(r, SBool):
+            fs = [x.rt for x in (self, o) if isinstance(x, SBool) and x.rt is not None]
+            if fs:
+                r.rt = lambda: [f() for f in fs]
+        return r
 
     __rand__ = __and__
 
     def __or__(self, o):
         if not isinstance(o, (SBool, bool)):
             return NotImplemented
-        return mk_bool(z3.Or(self.t, _b(o)))
+        r = mk_bool(z3.Or(self.t, _b(o)))
+        if isinstance(r, SBool):
+            fs = [x.rf for x in (self, o) if isinstance(x, SBool) and x.rf is not None]
+            if fs:
+                r.rf = lambda: [f() for f in fs]
+        return r
 
     __ror__ = __or__
 
     def __invert__(self):
-        return mk_bool(z3.Not(self.t))
+        r = mk_bool(z3.Not(self.t))
+        if isinstance(r, SBool):
+            r.rt, r.rf = self.rf, self.rt
+        return r
 
     def __eq__(self, o):
         if not isinstance(o, (SBool, bool)):
@@ -299,7 +329,7 @@ class SInt:
     __rxor__ = __xor__
 
     # --- comparisons
-    def _cmp(self, o, f, by_interval):
+    def _cmp(self, o, f, by_interval, kind=None):
         if isinstance(o, SBool):
             o = s_ite(o, 1, 0)
         if not isinstance(o, (int, SInt)):
@@ -312,19 +342,35 @@ class SInt:
             lim = 1 << (_cur.W - 1)
             if not (-lim <= o < lim):     # comparing with a constant outside the width: decided by sign
                 return by_interval(self.lo, self.hi, o, o)
-        return mk_bool(f(self.t, _bv(o)))
+        r = mk_bool(f(self.t, _bv(o)))
+        if isinstance(r, SBool) and isinstance(o, int) and kind is not None:
+            # interval refinement once the branch is decided: (upper bound if true, lower bound if false) etc.
+            def set_hi(v):
+                self.hi = min(self.hi, v)
+
+            def set_lo(v):
+                self.lo = max(self.lo, v)
+            if kind == 'lt':
+                r.rt, r.rf = (lambda: set_hi(o - 1)), (lambda: set_lo(o))
+            elif kind == 'le':
+                r.rt, r.rf = (lambda: set_hi(o)), (lambda: set_lo(o + 1))
+            elif kind == 'gt':
+                r.rt, r.rf = (lambda: set_lo(o + 1)), (lambda: set_hi(o))
+            elif kind == 'ge':
+                r.rt, r.rf = (lambda: set_lo(o)), (lambda: set_hi(o - 1))
+        return r
 
     def __lt__(self, o):
-        return self._cmp(o, lambda a, b: a < b, lambda l1, h1, l2, h2: True if h1 < l2 else (False if l1 >= h2 else None))
+        return self._cmp(o, lambda a, b: a < b, lambda l1, h1, l2, h2: True if h1 < l2 else (False if l1 >= h2 else None), 'lt')
 
     def __le__(self, o):
-        return self._cmp(o, lambda a, b: a <= b, lambda l1, h1, l2, h2: True if h1 <= l2 else (False if l1 > h2 else None))
+        return self._cmp(o, lambda a, b: a <= b, lambda l1, h1, l2, h2: True if h1 <= l2 else (False if l1 > h2 else None), 'le')
 
     def __gt__(self, o):
-        return self._cmp(o, lambda a, b: a > b, lambda l1, h1, l2, h2: True if l1 > h2 else (False if h1 <= l2 else None))
+        return self._cmp(o, lambda a, b: a > b, lambda l1, h1, l2, h2: True if l1 > h2 else (False if h1 <= l2 else None), 'gt')
 
     def __ge__(self, o):
-        return self._cmp(o, lambda a, b: a >= b, lambda l1, h1, l2, h2: True if l1 >= h2 else (False if h1 < l2 else None))
+        return self._cmp(o, lambda a, b: a >= b, lambda l1, h1, l2, h2: True if l1 >= h2 else (False if h1 < l2 else None), 'ge')
 
     def __eq__(self, o):
         if isinstance(o, SBool):
@@ -385,10 +431,10 @@ class SInt:
             raise EngineLimit("signed to_bytes")
         if self.lo < 0:
             if self < 0:
-                raise OverflowError("can't convert negative int to unsigned")
+                raise modelled(OverflowError("can't convert negative int to unsigned"))
         if self.hi >= (1 << (8 * length)):
             if not (self < (1 << (8 * length))):
-                raise OverflowError("int too big to convert")
+                raise modelled(OverflowError("int too big to convert"))
         if 8 * length > _cur.W:
             bs = [z3.Extract(8 * i + 7, 8 * i, self.t) if 8 * i + 8 <= _cur.W else
                   (0 if 8 * i >= _cur.W else z3.ZeroExt(8 * i + 8 - _cur.W, z3.Extract(_cur.W - 1, 8 * i, self.t)))
@@ -397,7 +443,9 @@ class SInt:
             bs = [z3.Extract(8 * i + 7, 8 * i, self.t) for i in range(length)]  # little endian
         if byteorder == 'big':
             bs.reverse()
-        return SBytes(bs)
+        r = SBytes(bs)
+        r._origin = (self, length, byteorder)       # lets int.from_bytes return the very same term (exact inverse)
+        return r
 
     def conjugate(self):
         return self
@@ -419,12 +467,12 @@ def _byte(x):
         return int(x)
     if isinstance(x, int):
         if not 0 <= x < 256:
-            raise ValueError("bytes must be in range(0, 256)")
+            raise modelled(ValueError("bytes must be in range(0, 256)"))
         return x
     if isinstance(x, SInt):
         if x.lo < 0 or x.hi > 255:
             if not ((x >= 0) & (x <= 255)):
-                raise ValueError("bytes must be in range(0, 256)")
+                raise modelled(ValueError("bytes must be in range(0, 256)"))
         x = z3.Extract(7, 0, x.t)
     x = z3.simplify(x)
     if z3.is_bv_value(x):
@@ -556,7 +604,7 @@ class SBytes:
         if self.b:
             ascii_ = mk_bool(z3.And([z3.ULT(_t8(x), 128) for x in self.b]))
             if not ascii_:
-                raise UnicodeDecodeError('utf-8', b'', 0, 1, 'non-ascii (model)')
+                raise modelled(UnicodeDecodeError('utf-8', b'', 0, 1, 'non-ascii (model)'))
         return SStr([self._elt(x) for x in self.b])
 
     def hex(self):
@@ -827,7 +875,7 @@ class SymTable:
     def __getitem__(self, i):
         if isinstance(i, SInt):
             if not ((i >= 0) & (i < len(self.d))):
-                raise IndexError("index out of range")
+                raise modelled(IndexError("index out of range"))
             t = z3.BitVecVal(self.d[-1], _cur.W)
             for k in range(len(self.d) - 2, -1, -1):
                 t = z3.If(i.t == k, z3.BitVecVal(self.d[k], _cur.W), t)
@@ -860,7 +908,7 @@ class SymTable:
         if isinstance(v, SInt):
             found = mk_bool(z3.Or([v.t == c for c in self.d]))
             if not found:
-                raise ValueError("subsection not found")
+                raise modelled(ValueError("subsection not found"))
             t = z3.BitVecVal(0, _cur.W)
             for k in range(len(self.d) - 1, -1, -1):
                 t = z3.If(v.t == self.d[k], z3.BitVecVal(k, _cur.W), t)
@@ -936,6 +984,7 @@ class Explorer:
     def assume(self, c):
         if isinstance(c, SBool):
             self._add(c.t)
+            c.refine(True)
             if self.optimistic:
                 return
             if self._check() != z3.sat:
@@ -1112,7 +1161,10 @@ class Explorer:
         if goal is True:
             r = z3.unsat
         else:
+            _t = time.time()
             r = self._check(*(ax + [z3.Not(_b(goal))]))
+            if DEBUG and time.time() - _t > 2:
+                print('SLOW obligation %s: %.1fs' % (oid, time.time() - _t), flush=True)
         if r == z3.sat:
             m = self._model()
             self.stats['violations'].append(dict(obligation=oid, inputs=self.concretise_inputs(m),
@@ -1297,6 +1349,11 @@ class Explorer:
                     raise HarnessError('z3 exception: %s' % e)
                 except Exception as e:       # the analysed code raised something the harness does not expect
                     import traceback
+                    org = 'repo' if getattr(e, '_symx_modelled', False) else exception_origin(e.__traceback__)
+                    if org == 'engine':
+                        raise EngineLimit('unsupported operation on a proxy: %s: %s\n%s' % (type(e).__name__, e, traceback.format_exc()[-1500:]))
+                    if org == 'harness':
+                        raise HarnessError('harness raised %s: %s\n%s' % (type(e).__name__, e, traceback.format_exc()[-1500:]))
                     self.stats['obligations'] += 1
                     oid = 'unexpected-exception:%s' % type(e).__name__
                     self.reach(oid)
@@ -1317,6 +1374,24 @@ class Explorer:
 
 def _num_value(x):
     return x.as_long() if z3.is_int_value(x) else x.as_signed_long()
+
+
+def exception_origin(tb):
+    """who raised: 'repo' (the analysed library, possibly inside C / stdlib code it called), 'engine' (a proxy / shim /
+    z3 - an unsupported operation) or 'harness'"""
+    origin = 'harness'
+    verif = os.path.dirname(os.path.dirname(os.path.abspath(__file__))) + os.sep
+    repo = os.path.realpath(os.environ.get('VT_REPO', '/repo')) + os.sep
+    while tb is not None:
+        fn = tb.tb_frame.f_code.co_filename
+        if fn.startswith(repo):
+            origin = 'repo'
+        elif fn.startswith(os.path.join(verif, 'symx')) or os.sep + 'z3' + os.sep in fn:
+            origin = 'engine'
+        elif fn.startswith(verif):
+            origin = 'harness'
+        tb = tb.tb_next
+    return origin
 
 
 class EvalModel:
